@@ -222,6 +222,36 @@ def eval_order(_):
     return Res(trans=len(calls) * 4, viols=viols, sample={'calls': len(calls), 'orders': 4})
 
 
+TZ_SWITCHES = [('IST-5:30', 'IST-2', 'IST', 7200), ('CST6', 'CST-8', 'CST', 28800), ('EST5EDT,M3.2.0,M11.1.0', 'EST-10EDT,M3.2.0,M11.1.0', 'EST', 36000),
+               ('AAA3', 'AAA-3', 'AAA', 10800), ('GMT0', 'GMT0BST,M3.5.0/1,M10.5.0', 'GMT', 0)]
+
+
+def eval_tzswitch(case):
+    """the process zone is an input of parse(): after the zone has changed (same zone *names*, other offsets) the
+    result follows the new zone, whatever was parsed before the change"""
+    from dateutil import parser
+    from props.posixmenu import tz_env
+    warnings.simplefilter('ignore')
+    a, b, name, off_b = case
+    viols = []
+    n = 0
+    for text in ('2003-01-25 10:36:28 ' + name, '25 Jan 2003 10:36 ' + name, 'Sat Jan 25 10:36:28 %s 2003' % name):
+        for before in (a, None):
+            if before is not None:
+                with tz_env(before):
+                    try:
+                        parser.parse(text, default=DEFAULT)
+                    except Exception:
+                        pass
+            with tz_env(b):
+                n += 1
+                o = outcome(text, {})
+            if o[0] != 'ok' or o[1][1] is None or o[1][1] == 'offset-out-of-range' or o[1][1].total_seconds() != off_b:
+                viols.append({'kind': 'state-carried-over' if before else 'local-zone-name-not-resolved', 'text': text, 'tz_before': before, 'tz_now': b,
+                              'outcome': o, 'expected_offset': off_b})
+    return Res(trans=n, viols=viols[:3])
+
+
 def signature(case, detail):
     return {'kind': detail.get('kind'), 'exception': detail.get('exception')}
 
@@ -233,6 +263,8 @@ def replay(part, case):
         return eval_order(case).viols
     if part == 'input-types':
         return eval_types(case).viols
+    if part == 'process-zone-switch':
+        return eval_tzswitch(tuple(case)).viols
     return eval_leak(case).viols
 
 
@@ -249,6 +281,7 @@ def run(ctx):
     ctx.explore('input-types', list(range(7)), 'eval_types', chunk=1)
     ctx.explore('call-order', list(range(len(leak_set()))), 'eval_leak', chunk=4)
     ctx.explore('call-order-global', [0], 'eval_order', serial=True)
+    ctx.explore('process-zone-switch', TZ_SWITCHES, 'eval_tzswitch', serial=True)
     ctx.coverage_extra.update({
         'bounds': {'token_alphabet': len(TOK), 'depth': depth, 'option_sets': len(OPTS), 'leak_set': len(leak_set()),
                    'cpu_cap_s': CPU_CAP},
